@@ -56,6 +56,15 @@ def ops_st(n_ops):
         st.fixed_dictionaries({'op': st.just('bcast'),
                                'ns': st.integers(0, 3)}),
         st.fixed_dictionaries({'op': st.just('emit_to'), 's': ci}),
+        # a connected client sends an ordinary EVENT that is named like a
+        # life-cycle event: it is not a connection request and not an end
+        st.fixed_dictionaries({'op': st.just('reserved_ev'), 'c': ci,
+                               'name': st.sampled_from(['connect',
+                                                        'disconnect']),
+                               'args': st.lists(S.leaves_st(
+                                   with_bytes=False), max_size=2),
+                               'id': st.one_of(st.none(),
+                                               st.integers(0, 5))}),
     ), min_size=4, max_size=n_ops)
 
 
@@ -239,7 +248,9 @@ RULE = ('Model-based stateful testing over configurations always_connect x '
         'generated connect decisions (accept None/True, return False, raise '
         'ConnectionRefusedError with 0-4 JSON args, disconnect the client '
         'itself, fail with another exception - then what the client was '
-        "told and the server's books must agree). Oracle: lifecycle model '
+        "told and the server's books must agree), and with ordinary "
+        'EVENTs named connect / disconnect from connected clients. '
+        'Oracle: lifecycle model '
         '(handler once per admitted request with the auth payload, answer '
         'frames exactly as documented, fresh sids, no membership after a '
         'refusal, exactly one disconnect invocation per accepted connection '
@@ -552,6 +563,27 @@ def _run(case, w):
                     disc_expected[c['sid']] = {R.TRANSPORT_ERROR}
                     ended.append((c['sid'], c['ns'], t))
             w.lose(t)
+        elif k == 'reserved_ev':
+            lv = w.live()
+            if not lv:
+                continue
+            c = w.clients[lv[op['c'] % len(lv)]]
+            nlog = len(log)
+            w.recv_all()
+            w.send(c['t'], wire.EVENT, c['ns'], op['id'],
+                   [op['name']] + list(op['args']))
+            w.h.settle()
+            if log[nlog:]:
+                raise Violation('lifecycle-handler-run-by-event',
+                                'EVENT %r from a connected client ran %r'
+                                % ([op['name']] + list(op['args']),
+                                   log[nlog:]))
+            w.h.swallowed[:] = []
+            if not sio.manager.is_connected(c['sid'], c['ns']):
+                raise Violation('event-ended-connection', op['name'])
+            w.recv_all()
+            labels['event_named_like_lifecycle_event'] = True
+            labels['nontrivial'] = True
         elif k == 'bcast':
             bcast(NSS[op['ns']], step)
         elif k == 'emit_to':
